@@ -1,5 +1,7 @@
 # unit `handler` (C01, C05, C11, C14, C15): proxy_server.rs request path, proxy_connection.rs contexts
-import os
+import os, sys
+sys.path.insert(0, os.path.join(os.path.dirname(os.path.dirname(os.path.abspath(__file__))), 'common'))
+import stubs
 from vxlib import Undecided
 HERE = os.path.dirname(os.path.abspath(__file__))
 CON = os.path.dirname(HERE)
@@ -67,8 +69,7 @@ def build(u):
             for n in ("WIRE_SERVER_IP", "WIRE_SERVER_PORT", "GA_PLUGIN_IP", "GA_PLUGIN_PORT", "IMDS_IP", "IMDS_PORT", "PROXY_AGENT_IP", "PROXY_AGENT_PORT",
                       "CLAIMS_IS_ROOT", "CLAIMS_HEADER", "AUTHORIZATION_HEADER", "DATE_HEADER", "AUTHORIZATION_SCHEME"):
                 u.take(consts, n, "const")
-        with u.mod("logger"):
-            u.take_fn(lg, "write_console_log", external_body=True)
+        stubs.agent_logger_mod(u)
         with u.mod("hyper_client", uses="use http::Uri;\nuse http::request::Parts;\nuse hyper::body::Bytes;\nuse http_body_util::combinators::BoxBody;"):
             u.take_fn(hc, "should_skip_sig", external_body=True, contract="        ensures r == skip_spec(*method, *relative_uri),\n")
             u.take_fn(hc, "as_sig_input", external_body=True, contract="        ensures r@ == sig_input_spec(parts_method(head), parts_uri(head), parts_headers(head), bytes_view(body)),\n")
@@ -78,7 +79,10 @@ def build(u):
     with u.mod("provision"):
         with u.mod("provision_query"):
             u.take(prov, "provision_query::PROVISION_URL_PATH", "const")
+    sl = u.src("proxy_agent_shared/src/logger.rs")
     with u.mod("proxy_agent_shared"):
+        with u.mod("logger"):
+            u.take(sl, "LoggerLevel", "type")
         with u.mod("misc_helpers"):
             u.take_fn(mh, "get_date_time_rfc1123_string", external_body=True, contract="        ensures is_current_date(r@),\n")
         with u.mod("telemetry"):
@@ -120,7 +124,7 @@ def build(u):
         with u.mod("authorization_rules", uses="use super::Claims;\nuse crate::key_keeper::key::{Identity, Privilege};\nuse std::collections::{HashMap, HashSet};"):
             u.take(ar, "AuthorizationMode", "enum", structural=True)
             u.take(ar, "ComputedAuthorizationItem", "struct")
-        with u.mod("proxy_authorizer", uses="use super::authorization_rules::{AuthorizationMode, ComputedAuthorizationItem};\nuse super::proxy_connection::ConnectionLogger;\nuse crate::{common::constants, common::result::Result, proxy::Claims};\nuse crate::shared_state::key_keeper_wrapper::KeyKeeperSharedState;"):
+        with u.mod("proxy_authorizer", uses="", auto_uses=pa):
             u.take(pa, "AuthorizeResult", "enum", structural=True)
             # contracts proved in unit `authorizer` (same text), assumed here
             u.take_fn(pa, "get_access_control_rules", external_body=True, contract="""
@@ -136,7 +140,7 @@ def build(u):
                 final(tr).decisions == old(tr).decisions.push(r), final(tr).failed == old(tr).failed,   // ghost record of the decision
                 *final(logger) == *old(logger),
 """)
-        with u.mod("proxy_connection", uses="use crate::common::error::{Error, HyperErrorType};\nuse crate::common::hyper_client;\nuse crate::common::result::Result;\nuse crate::proxy::Claims;\nuse http_body_util::Full;\nuse hyper::body::Bytes;\nuse hyper::Request;\nuse log::Level as LoggerLevel;\nuse std::net::{Ipv4Addr, SocketAddr};\nuse std::sync::Arc;\nuse std::time::Instant;\nuse tokio::sync::Mutex;\nuse crate::shared_state::key_keeper_wrapper::KeyKeeperSharedState;"):
+        with u.mod("proxy_connection", uses="use crate::shared_state::key_keeper_wrapper::KeyKeeperSharedState;", auto_uses=pc):
             u.take(pc, "RequestBody", "type")
             u.placeholder_ext(pc, ["Client"], "vx_ph_client", keep=())
             u.take(pc, "ConnectionLogger", "struct")
@@ -180,7 +184,7 @@ def build(u):
                  fwd_ok(request, orig),        // @C05+C14+C15.HttpConnectionContext_send_request.host_receives_client_request_with_proxy_headers
 """)
 
-        with u.mod("proxy_server", uses="use crate::provision;\nuse crate::common::{constants, error::{Error, HyperErrorType}, helpers, hyper_client, logger, result::Result};\nuse crate::proxy::proxy_connection::{ConnectionLogger, HttpConnectionContext, TcpConnectionContext};\nuse crate::proxy::{proxy_authorizer, proxy_authorizer::AuthorizeResult, proxy_summary::ProxySummary, Claims};\nuse crate::shared_state::agent_status_wrapper::AgentStatusSharedState;\nuse crate::shared_state::key_keeper_wrapper::KeyKeeperSharedState;\nuse crate::shared_state::provision_wrapper::ProvisionSharedState;\nuse crate::shared_state::proxy_server_wrapper::ProxyServerSharedState;\nuse crate::shared_state::redirector_wrapper::RedirectorSharedState;\nuse crate::shared_state::telemetry_wrapper::TelemetrySharedState;\nuse http_body_util::Full;\nuse http_body_util::{combinators::BoxBody, BodyExt};\nuse hyper::body::{Bytes, Frame, Incoming};\nuse hyper::header::{HeaderName, HeaderValue};\nuse hyper::StatusCode;\nuse hyper::{Request, Response};\nuse log::Level as LoggerLevel;\nuse crate::proxy_agent_shared::misc_helpers;\nuse crate::proxy_agent_shared::telemetry::event_logger;\nuse tokio_util::sync::CancellationToken;\nuse tower_http::{body::Limited, limit::RequestBodyLimitLayer};"):
+        with u.mod("proxy_server", uses="use tower_http::limit::RequestBodyLimitLayer;", auto_uses=ps):
             u.take(ps, "ProxyServer", "struct", keep_derive=("Clone",))
             with u.impl_(ps, "ProxyServer"):
                 u.take_fn(ps, "ProxyServer::empty_response", e9=status_e9(), contract="""
